@@ -99,8 +99,13 @@ def rule_paired_borders(chk, prog):
 SYMS = ["minX", "maxX", "minY", "maxY"]
 
 
+PROG = [None]
+
+
 def sym_rect():
-    return Obj("vpsc::Rectangle", {"minX": Poly.var("minX"), "maxX": Poly.var("maxX"), "minY": Poly.var("minY"),
+    from ..microai.interp import default_obj
+    mk = (lambda c, f: default_obj(PROG[0], c, f)) if PROG[0] is not None else Obj
+    return mk("vpsc::Rectangle", {"minX": Poly.var("minX"), "maxX": Poly.var("maxX"), "minY": Poly.var("minY"),
                                     "maxY": Poly.var("maxY"), "overlap": False})
 
 
@@ -340,6 +345,7 @@ def rule_order(chk, prog):
 
 def run(chk):
     prog = chk.load()
+    PROG[0] = prog
     cg = CallGraph(prog)
     rule_paired_borders(chk, prog)
     rule_movers(chk, prog)
